@@ -13,6 +13,7 @@ use crate::libx::{self, build_packed, build_potential, lattice_of, to_affine, Ha
 use crate::oracle::geom::{self, Affine, P};
 use crate::oracle::groups;
 use crate::oracle::lattice::Lattice;
+use super::history::{self, History};
 
 #[derive(Clone, Debug, Serialize, Deserialize, PartialEq)]
 pub enum Kind {
@@ -215,6 +216,80 @@ pub fn check(c: &Case, st: &mut Stats) {
     }
 }
 
+/// one state object (hard or LJ) edited again and again, its arrangement checked after every
+/// edit: the placements it reports must have the group's symmetry in the cell it holds now
+pub fn check_history(h: &History, st: &mut Stats) {
+    let before = st.violations.len();
+    let order = groups::group(&h.group).map(|g| g.ops.len()).unwrap_or(1);
+    let group = h.group.clone();
+    macro_rules! judge {
+        ($view:expr) => {
+            |s, step, _six, p: &Params, st: &mut Stats| {
+                st.eval();
+                let view: SymView = $view(s);
+                if order >= 2 {
+                    st.nontrivial(hash64(&[77, hash_str(&group), hash64(&p.quant()), step as u64]));
+                }
+                if let Some((what, detail)) = check_symmetry(&group, &view) {
+                    st.violation(Violation { kind: "c04.history".into(), signature: format!("symmetry:{}:{}", group, what), case: json!({"params": p.to_json(), "step": step}), detail });
+                }
+            }
+        };
+    }
+    if h.lj {
+        let shapes: Vec<LJShape2> = h.shapes.iter().map(|s| if matches!(s, ShapeSpec::Polygon { .. }) { Some(chiral_lj()) } else { s.lj() }).flatten().collect();
+        if shapes.len() == h.shapes.len() {
+            if let Ok(state) = build_potential(shapes[0].clone(), &h.group, &h.start) {
+                history::drive(h, state, &shapes, st, judge!(view_lj));
+            }
+        }
+    } else if h.shapes.iter().all(|s| s.is_line()) {
+        // (a 7-sided polygon entry stands for the chiral test shape)
+        let shapes: Vec<LineShape> = h.shapes.iter().map(|s| if matches!(s, ShapeSpec::Polygon { sides: 7 }) { Some(chiral_line()) } else { s.line() }).flatten().collect();
+        if shapes.len() == h.shapes.len() {
+            if let Ok(state) = build_packed(shapes[0].clone(), &h.group, &h.start) {
+                history::drive(h, state, &shapes, st, judge!(view_hard));
+            }
+        }
+    } else {
+        let shapes: Vec<packing::MolecularShape2> = h.shapes.iter().filter_map(|s| s.mol()).collect();
+        if shapes.len() == h.shapes.len() {
+            if let Ok(state) = build_packed(shapes[0].clone(), &h.group, &h.start) {
+                history::drive(h, state, &shapes, st, judge!(view_hard));
+            }
+        }
+    }
+    history::rewrap(st, before, "c04.history", h);
+}
+
+pub fn gen_history<R: Rng>(rng: &mut R) -> History {
+    let group = groups::NAMES[rng.gen_range(0, 7)];
+    let lj = rng.gen_bool(0.4);
+    let n = rng.gen_range(1, 4);
+    let kind = rng.gen_range(0, 2);
+    let shapes: Vec<ShapeSpec> = (0..n)
+        .map(|_| {
+            if lj {
+                // Polygon stands for the three unlike particles
+                if rng.gen_bool(0.5) {
+                    ShapeSpec::Polygon { sides: 7 }
+                } else {
+                    libx::gen::trimer(rng)
+                }
+            } else if kind == 0 {
+                if rng.gen_bool(0.6) {
+                    ShapeSpec::Polygon { sides: 7 }
+                } else {
+                    ShapeSpec::Polygon { sides: rng.gen_range(3, 9) }
+                }
+            } else {
+                libx::gen::trimer(rng)
+            }
+        })
+        .collect();
+    history::gen_history(rng, group, shapes, lj, 1.)
+}
+
 pub fn gen_case<R: Rng>(rng: &mut R, optimised: bool) -> Case {
     let group = groups::NAMES[rng.gen_range(0, 7)].to_string();
     let kind = if rng.gen_bool(0.5) { Kind::Hard } else { Kind::LJ };
@@ -255,7 +330,7 @@ pub fn gen_case<R: Rng>(rng: &mut R, optimised: bool) -> Case {
 }
 
 pub fn run(ctx: &Ctx) {
-    ctx.set_rule("hard and Lennard-Jones states of all 7 groups with chiral test shapes (irregular 7-gon; three unlike LJ particles - sensitive to handedness) and the CLI's shapes; sites uniform and on special positions/bounds, orientations incl. multiples of pi/2, cells of the group's family (length 0.1-30, ratio 0.1-1, oblique angle pi/6-pi/2); plus states after chains of 1-3 optimisation stages (kT 0/0.1/5, step 0.01-0.6, directly and via clone(), read back through JSON) where ratio and angle drift. Oracle: for every ITA operation, Q = M W M^-1 must be orthogonal (1e-9) and the image of every placed copy must coincide, as a set of points with radii, with some placed copy plus a lattice vector (1e-9 x scale). Non-trivial = group order >= 2 and a shape without full rotational symmetry; distinct by quantised parameters + stage seed");
+    ctx.set_rule("hard and Lennard-Jones states of all 7 groups with chiral test shapes (irregular 7-gon; three unlike LJ particles - sensitive to handedness) and the CLI's shapes; sites uniform and on special positions/bounds, orientations incl. multiples of pi/2, cells of the group's family (length 0.1-30, ratio 0.1-1, oblique angle pi/6-pi/2); plus states after chains of 1-3 optimisation stages (kT 0/0.1/5, step 0.01-0.6, directly and via clone(), read back through JSON) where ratio and angle drift; plus state objects that live through histories of 3-13 edits (several parameters at once - set, rescaled by powers of two, negated, nudged by an ulp, exchanged, reset -, the shape replaced, the cell replaced, clone(), JSON round trip), checked after every edit. Oracle: for every ITA operation, Q = M W M^-1 must be orthogonal (1e-9) and the image of every placed copy must coincide, as a set of points with radii, with some placed copy plus a lattice vector (1e-9 x scale). Non-trivial = group order >= 2 and a shape without full rotational symmetry; distinct by quantised parameters + stage seed");
     ctx.assume("the ITA table of oracle/groups.rs; placements are read from cartesian_positions() and the cell from its three numbers");
     let n = ctx.tier.pick(5_000u64, 400_000u64);
     let nopt = ctx.tier.pick(40u64, 1_500u64);
@@ -268,6 +343,9 @@ pub fn run(ctx: &Ctx) {
         for _ in 0..nopt {
             check(&gen_case(rng, true), st);
         }
+        for _ in 0..n / 10 {
+            check_history(&gen_history(rng), st);
+        }
     });
     std::panic::set_hook(prev);
     ctx.set_min_nontrivial(5_000);
@@ -275,7 +353,9 @@ pub fn run(ctx: &Ctx) {
 
 pub fn replay(ctx: &Ctx, case: &Value) {
     let mut st = Stats::new();
-    if let Ok(c) = serde_json::from_value::<Case>(case.clone()) {
+    if let Ok(h) = serde_json::from_value::<History>(case.clone()) {
+        check_history(&h, &mut st);
+    } else if let Ok(c) = serde_json::from_value::<Case>(case.clone()) {
         check(&c, &mut st);
     }
     ctx.merge(st);
